@@ -38,18 +38,25 @@ theorem generated_types_modelled :
     Kernel.dtypes .hamming = [.u8, .u16, .u32, .u64, .i8, .i16, .i32, .i64] := by
   decide
 
-/-- the kernels' typed-buffer signatures, loop bodies, wrappers and the metric-name map are
-the ones the model mirrors (a change of the source makes this fail and flags the model) -/
+/-- the NORMALISED structure of the source is the one the model mirrors: typed-buffer signatures by
+position, the three kernels (native form, or the repaired subtraction), the C functions used, what
+each public wrapper does before entering its kernel (the modelled validation predicates in the
+modelled order — further predicates and any chain of helpers are accepted —, the kernel call and
+the returned expression) and the metric-name map.  Renames, comments, docstrings, message texts,
+declaration order, `while` counting loops, `with nogil:` grouping and helper names do not enter;
+a change of the loop structure, of an index expression, of the arithmetic type of a temporary, of a
+buffer option or of the validation does, and makes this fail (flagging the model). -/
 theorem generated_kernels_as_modelled :
+    Gen.notes = [] ∧
     Gen.kernelSigs =
       [("_euclidean", [("X", "FLOAT_TYPE_T", 2), ("y", "FLOAT_TYPE_T", 1), ("out", "float64", 1)]),
        ("_hamming", [("X", "INTEGRAL_TYPE_T", 2), ("y", "INTEGRAL_TYPE_T", 1), ("out", "float64", 1)]),
        ("_manhattan", [("X", "FLOAT_TYPE_T", 2), ("y", "FLOAT_TYPE_T", 1), ("out", "float64", 1)])] ∧
-    (Gen.kernelBodies = nativeBodies ∨ Gen.kernelBodies = repairedBodies) ∧
-    Gen.wrappers =
-      [("euclidean", ["_prepare_for_2d_to_1d_distance", "_euclidean"]),
-       ("hamming", ["_prepare_for_2d_to_1d_distance", "_hamming"]),
-       ("manhattan", ["_prepare_for_2d_to_1d_distance", "_manhattan"])] ∧
+    (Gen.kernels = nativeKernels ∨ Gen.kernels = repairedKernels) ∧
+    Gen.externs = ["\"math.h\": double fabs(double)", "\"math.h\": double sqrt(double)",
+                   "\"math.h\": float fabs(float)"] ∧
+    traceOk "euclidean" "_euclidean" = true ∧ traceOk "hamming" "_hamming" = true ∧
+    traceOk "manhattan" "_manhattan" = true ∧
     Gen.metricMap = [("cityblock", "manhattan"), ("euclidean", "euclidean"), ("manhattan", "manhattan")] := by
   decide
 
